@@ -5,8 +5,15 @@ CFG = {
         "model_targets": ["Syntax/Ast.vo"],
         "proof_targets": ["Props/C15.vo"],
         "harness": [{"bin": "h_syntax", "prefix": "cases_syntax", "timeout": 3000}],
-        "trusted": [],
-        "theorem_backed": "",
-        "link_only": "",
-        "assumptions": [],
+        "trusted": [
+            "hand-written Gallina model coq/Syntax/{Sexp,Ast}.v of the lexer/reader (src/ast/parse.rs:1111-1302), of Display for Literal/Expr/Fact/Action/Rule/Schedule/Command and of Parser::parse_* — tied to the Rust code in both directions by harness h_syntax (model print = Rust Display text, model parse = Rust parse result, on every case)",
+            "f64 oracle hypotheses of the float theorems (f64::to_string of a finite value is a non-empty string over [0-9.-]; the printed literal parses back to the same bits; only texts with a digit parse as finite f64): tested on the real functions for all 2047 exponents x 3 mantissas, special values and 2*10^5 (quick) / 2*10^6 (thorough) random patterns, and on every token the generator produces",
+        ],
+        "theorem_backed": "string escaping round trip for arbitrary characters; i64 print/parse over the full range; every literal; every well-formed s-expression under the canonical printer AND under any whitespace layout (c15_layout_roundtrip: covers the text of every Display impl once its layout is well formed); expr / fact / action (incl. panic with any message) print->parse identity on the exact Display text; schedules re-parse to rewrap(s) with flat(rewrap s)=flat s; atoms produced by the lexer are well formed (non-vacuity)",
+        "link_only": "the command level (all 27 Command variants with every option, rule/rewrite/datatype/function/constructor/sort internals, print-function modes): printers and parser are modelled and compared with the Rust ones on every case, and the round trip is evaluated as a predicate on the implementation, but no Coq theorem is proved about parse_command; extracted-term printing (TermDag::to_string / evaluation) is not covered here (C07); resolve_program output re-run on a fresh engine: tests/*.egg only; parser macros / user-defined commands; Unicode: char::is_whitespace table compared up to U+3100 and asserted empty above",
+        "assumptions": [
+            "text is a sequence of Unicode scalar values (Rust str::chars); spans are ignored",
+            "f64 formatting/parsing enter through the oracle hypotheses above",
+            "usize/u64 option values are unbounded N in the model (the lexer already bounds them by i64)",
+        ],
     }
